@@ -522,6 +522,74 @@ def generate():
     emit('  ' + decision_function(f, atoms, bool_ret(atoms), '_check_same_subtree'))
     emit('')
 
+    # ---------------------------------------------------------------- replace_all: the server-side retry loop
+    ta = ast.parse(src_of('objects/allocation.py'))
+    f = find_func(ta, 'replace_all')
+    loops = [st for st in f.body if isinstance(st, ast.While)]
+    if len(loops) != 1:
+        raise ExtractError('replace_all: expected exactly one while loop')
+    w = loops[0]
+    cnt = ast.unparse(w.test)
+    if not (isinstance(w.test, ast.Name) and len(w.body) == 2 and isinstance(w.body[0], ast.AugAssign) and
+            ast.unparse(w.body[0]) == '%s -= 1' % cnt and isinstance(w.body[1], ast.Try)):
+        raise ExtractError('replace_all: loop is not `while n: n -= 1; try: ...`')
+    tr_ = w.body[1]
+    if [ast.unparse(x) for x in tr_.body] != ['_set_allocations(context, alloc_list)', 'break'] or tr_.orelse or tr_.finalbody:
+        raise ExtractError('replace_all: try body is not `_set_allocations(context, alloc_list); break`')
+    if len(tr_.handlers) != 1 or ast.unparse(tr_.handlers[0].type) != 'exception.ResourceProviderConcurrentUpdateDetected':
+        raise ExtractError('replace_all: expected one handler for ResourceProviderConcurrentUpdateDetected')
+    latoms = {('truth', cnt): '(r != 0)', cnt: 'r'}
+    JUMP = (ast.Break, ast.Continue, ast.Return, ast.Raise)
+
+    def outcome(st):
+        if isinstance(st, ast.Break):
+            return '.leftWithoutSuccess'          # leaves the loop WITHOUT running its `else:` clause
+        if isinstance(st, ast.Return):
+            return '.leftWithoutSuccess'
+        if isinstance(st, ast.Continue):
+            return 'replaceAllLoop attempt r (i + 1)'
+        if isinstance(st, ast.Raise):
+            return '.raisedConflict' if st.exc is None or 'ResourceProviderConcurrentUpdateDetected' in ast.unparse(st.exc) \
+                else '.raisedOther'
+        raise ExtractError('replace_all: unexpected jump')
+    # the handler: statements without jumps are skipped; `if <test on the counter>: <jump>` becomes a branch
+    rest = 'replaceAllLoop attempt r (i + 1)'
+    branches = []
+    for st in tr_.handlers[0].body:
+        jumps = [n for n in ast.walk(st) if isinstance(n, JUMP)]
+        if not jumps:
+            continue
+        if isinstance(st, JUMP):
+            rest = outcome(st)
+            break
+        if isinstance(st, ast.If) and not st.orelse and len(st.body) >= 1 and isinstance(st.body[-1], JUMP) and \
+                not any(isinstance(n, JUMP) for b in st.body[:-1] for n in ast.walk(b)):
+            branches.append((_bexpr(st.test, latoms, 'replace_all handler'), outcome(st.body[-1])))
+            continue
+        raise ExtractError('replace_all: cannot translate the control flow of the conflict handler: `%s`' % ast.unparse(st)[:80])
+    hexpr = rest
+    for test, out_ in reversed(branches):
+        hexpr = '(if %s then %s else %s)' % (test, out_, hexpr)
+    if w.orelse and isinstance(w.orelse[-1], ast.Raise) and \
+            not any(isinstance(n, (ast.Break, ast.Continue, ast.Return)) for b in w.orelse for n in ast.walk(b)):
+        exhausted = outcome(w.orelse[-1])
+    elif not w.orelse:
+        exhausted = '.leftWithoutSuccess'
+    else:
+        raise ExtractError('replace_all: cannot translate the `else:` clause of the loop')
+    emit('/-- how `replace_all` can end -/')
+    emit('inductive LoopEnd where')
+    emit('  | succeeded (attempt : Nat) | raisedConflict | raisedOther | leftWithoutSuccess')
+    emit('deriving DecidableEq, Repr')
+    emit('/-- control flow of the retry loop of `replace_all` (`while retries: retries -= 1; try: _set_allocations; break;')
+    emit('except ResourceProviderConcurrentUpdateDetected: ...; else: raise`), translated from its AST: `attempt i` = does the')
+    emit('i-th call of `_set_allocations` succeed, first argument = attempts left, `leftWithoutSuccess` = the function returns')
+    emit('normally although no attempt succeeded -/')
+    emit('def replaceAllLoop (attempt : Nat → Bool) : Nat → Nat → LoopEnd')
+    emit('  | 0, _ => %s' % exhausted)
+    emit('  | r + 1, i => if attempt i then .succeeded i else %s' % hexpr)
+    emit('')
+
     # ---------------------------------------------------------------- constants
     from placement.objects import resource_class as rc_mod
     from placement.db import constants as db_const
